@@ -655,8 +655,6 @@ def run(prop):
     out["coverage"]["disagreements_checked"] = len(out["results"]) + n_static
     out["coverage"]["static_findings"] = n_static
     out["coverage"]["extra_assumptions"] = [
-        "C11 tables: Dart/Kotlin/C++/nanobind tables are read from the emitted text by /verif/lib/enumfront.py (regular template output; an unrecognised shape is inconclusive), "
-        "the JS table by loading the emitted ES module under node with a stub wasm object; variant names are matched case- and underscore-insensitively",
         "E2/E3: the program quantifier is the enumerated module family (M0 fixed covering set + seeded random modules, see coverage.modules); "
         "each module is compiled with the real #[diplomat::bridge] macro from /repo and its C headers come from /repo's diplomat-tool built from the working tree",
         "C declarations are read by CBMC's C front end (goto-cc, LP64); mirror structs are #[repr(C)] re-declarations whose size and field offsets are asserted equal to the front end's",
@@ -664,4 +662,7 @@ def run(prop):
         "calling convention (register classes, struct passing) is trusted to be derived identically by rustc and the C compiler from identical layouts; x86-64 SysV variadic == non-variadic for callback argument classes",
         "slices up to %d elements, string-slice lists up to 2x2; 128-bit integers, traits, callbacks taking non-primitives and multi-module references are outside the family" % hgen_c.SLICE_N,
     ]
+    if prop == "C11":
+        out["coverage"]["extra_assumptions"].insert(0, "C11 tables: Dart/Kotlin/C++/nanobind tables are read from the emitted text by /verif/lib/enumfront.py (regular template output; an unrecognised shape is inconclusive), "
+        "the JS table by loading the emitted ES module under node with a stub wasm object; variant names are matched case- and underscore-insensitively")
     return out
